@@ -23,6 +23,8 @@ LEVEL = {
     "C08": ("Bounded model checking: every rename issued by the real code has an absent or byte-identical destination, ruler never creates/chmods files itself, and every content present before a step is at a target or in the cache after each mutation, also when the command then runs or fails.", "3/C08"),
     "C09": ("Bounded model checking: every mutating System call of the real step functions names an in-scope target or a cache entry, out-of-scope files are bit-identical afterwards, leaves are only read; build() starts exactly one worker per plan entry and hands it exactly its own targets.", "3/C09"),
     "C10": ("Bounded model checking of clean_targets followed by the next build's resolve phase on one symbolic file system: targets gone and filed under their hash after clean; recovered byte-identical with their executable bit, no command, given pairwise different contents.", "3/C10"),
+    "C11": ("Bounded model checking with a symbolic kill point: the real state-file writers (rule history, file-state table) killed before/after any file-system mutation or inside a write, then the real readers: never an error; directory::init from every partial ruler directory; cache content-addressed and nothing lost after every mutation of a rule step.", "A.3/C11"),
+    "C12": ("Solver-checked path-forking interpretation of the sorter's MIR (rules_to_frame_buffer, sort_once, get_result, topological_sort, topological_sort_all) with SYMBOLIC names: for every enumerated shape (number of rules, targets and sources per rule) every pattern of equalities and order among target, source and goal names is decided by z3 forks, and on each the result is compared with an independent oracle (duplicate target, goal lookup, reachability, cycles by transitive closure, plan membership, producer-before-consumer, exact source binding, canonical order, independence of input order).", "A.3/C12"),
     "C13": ("Bounded model checking: for two symbolic parser-producible rules, the byte streams hashed into their identities are equal exactly when sorted targets, sorted sources and the command sequence are equal.", "3/C13"),
     "C15": ("(a) solver-checked over ALL 256-bit values / all strings on the MIR of encode62/decode62 (path-wise symbolic execution, z3): 43 alphabet characters, value preserved, length/alphabet/overflow rejection, hence a bijection; (b) bounded model checking of from_file with symbolic short reads: the digest receives exactly the file's bytes.", "3/C15"),
     "C17": ("Bounded model checking of the real RuleHistory::insert + FileStateVec::compare (differing indices exactly, in order; record unchanged) and of the real rebuild_node around it (indices mapped to the right target paths; Ok iff nothing differs).", "3/C17"),
@@ -33,8 +35,6 @@ LEVEL = {
 NA = {
     "C03": "not applicable within reach: a statement about the real build() (spawn loops, closure bodies, join loop); the protocol harness over the sequentialising thread/channel shim is written (kani/harness/build__proto.rs) but CBMC does not get through build(): plan 'one leaf -> one rule' still in symbolic execution after 25 min / 21 GB (DESIGN A.3)",
     "C05": "not applicable within reach: same reason as C03 -- needs the real build()/clean() under the model checker, which exceeds CBMC's memory even for the smallest plan; Kani has no threads, the closures are not callable items (DESIGN A.3)",
-    "C11": "not claimed: only the start-up half (directory::init from any partial ruler directory) and 'cache content-addressed / nothing lost after every mutation' are decided (harness init_any_partial_directory, step monitors); the state-file half needs bincode under CBMC, which ran out of memory on a one-entry round trip (DESIGN A.3)",
-    "C12": "not applicable within reach: topological_sort* on 3 symbolic rules exceeds 14 GB in CBMC's symbolic execution in every variant tried (data-dependent moves of heap-holding frames); oracle and native replay exist (shared/sortcase.rs) and reproduce a known false-cycle defect, but no solver check produces it (DESIGN A.3, finding F3)",
     "C14": "not applicable within reach: the parser is the same kind of heap-heavy String/BTreeMap code as the sorter, on which CBMC exhausts memory; no encoding within the resource caps (DESIGN A.3)",
     "C16": "not applicable within reach: bincode/serde visitor machinery under CBMC runs out of memory (14 GB) on a one-entry RuleHistory round trip (DESIGN A.3)",
     "C19": "not applicable: the endpoints are closures inside a tokio/warp async runtime served over a socket; neither Kani (no async runtime, no sockets) nor a MIR translation of warp/hyper is within reach (DESIGN 3/C19)",
@@ -48,11 +48,15 @@ def main():
         e = registry.PROPERTIES[pid]
         text, ref = LEVEL[pid]
         eng = "kani-step" + ("+mir-smt" if e.get("mir") else "")
-        served["kani-step"].append(pid)
+        if e.get("mir") != "sorter":
+            served["kani-step"].append(pid)
         if e.get("mir"):
             served["mir-smt"].append(pid)
         tech = "bounded model checking (Kani/CBMC SAT) of the real Rust functions over a symbolic pre-state"
-        if e.get("mir"):
+        if e.get("mir") == "sorter":
+            eng = "mir-smt"
+            tech = "SMT (z3) decided path-forking symbolic interpretation of rustc's MIR for sort.rs with symbolic rule names, shapes enumerated"
+        elif e.get("mir"):
             tech = "SMT (z3) over a path-wise symbolic execution of rustc's MIR for the base-62 kernels, plus bounded model checking (Kani/CBMC) of from_file"
         if any(registry.HARNESSES[h].get("kind") == "proto" for h in e["quick"]):
             tech += "; real build() over a sequentialising thread/channel shim with Kahn-network monitors"
